@@ -22,6 +22,10 @@ type VCase struct {
 	Expect string // "valid", "invalid", ""
 	Fault  string
 	Rule   string
+	Tag    string // family bookkeeping ("pair": an ordered pair of the small-scope family)
+	// ImplOnly: compared by implementation-side oracles only (documents of a size the extracted
+	// model, a specification and not an algorithm, answers in seconds per rule list)
+	ImplOnly bool
 }
 
 // GenValidationCases: typed valid documents, the same with 1-3 injected faults, type-blind documents.
@@ -37,7 +41,7 @@ func GenValidationCases(c *core.Ctx, nSchemas, perSchema int, feats map[string]i
 		for k := 0; k < perSchema; k++ {
 			tg := &gen.TGen{R: c.Rng, S: s, Feat: feats}
 			doc := tg.Doc()
-			out = append(out, VCase{srcs, gen.PrintDoc(doc), "valid", "", ""})
+			out = append(out, VCase{Srcs: srcs, Query: gen.PrintDoc(doc), Expect: "valid"})
 			// the same document with 1-3 faults
 			nf := 1 + c.Rng.Intn(3)
 			var names, rls []string
@@ -51,12 +55,12 @@ func GenValidationCases(c *core.Ctx, nSchemas, perSchema int, feats map[string]i
 				}
 			}
 			if len(names) > 0 {
-				out = append(out, VCase{srcs, gen.PrintDoc(d2), "invalid", strings.Join(names, "+"), strings.Join(rls, "+")})
+				out = append(out, VCase{Srcs: srcs, Query: gen.PrintDoc(d2), Expect: "invalid", Fault: strings.Join(names, "+"), Rule: strings.Join(rls, "+")})
 			}
 			// type-blind document over arbitrary names
 			g := &gen.QGen{R: c.Rng, MaxDepth: 2}
 			g.Doc()
-			out = append(out, VCase{srcs, gen.Render(c.Rng, g.Toks, 0), "", "", ""})
+			out = append(out, VCase{Srcs: srcs, Query: gen.Render(c.Rng, g.Toks, 0)})
 		}
 	}
 	return out
@@ -325,6 +329,23 @@ func runC08(c *core.Ctx) {
 	tm := TypeMatrix()
 	cases = append(cases, tm...)
 	c.Count("type_matrix_documents", int64(len(tm)))
+	stride := 150
+	if !c.Quick {
+		stride = 8
+	}
+	ss := SmallScope(stride)
+	cases = append(cases, ss...)
+	c.Count("small_scope_documents", int64(len(ss)))
+	c.Count("small_scope_atoms", int64(len(smallScopeAtoms)))
+	sc := ScaleDocsUpTo(101, 256)
+	if !c.Quick {
+		sc = ScaleDocsUpTo(129, 256)
+	}
+	cases = append(append([]VCase{}, sc...), cases...) // the slow ones first
+	c.Count("scale_documents", int64(len(sc)))
+	idd := IntrospectionDepthDocs()
+	cases = append(cases, idd...)
+	c.Count("introspection_depth_documents", int64(len(idd)))
 	for k, v := range feats {
 		c.Count("feature_"+k, int64(v))
 	}
